@@ -11,7 +11,6 @@ import (
 	"github.com/tink-crypto/tink-go/v2/verifharness/internal/detrand"
 	"github.com/tink-crypto/tink-go/v2/verifharness/internal/evid"
 	"github.com/tink-crypto/tink-go/v2/verifharness/internal/gen"
-	"github.com/tink-crypto/tink-go/v2/verifharness/internal/ref/jwtref"
 )
 
 // TestTokenMutation: a valid token made by Tink, then bit / byte mutations of each of its three
@@ -26,7 +25,7 @@ func TestTokenMutation(t *testing.T) {
 		p := single(rt, k)
 		skew := rapid.SampledFrom(wholeSkews).Draw(rt, "skew")
 		now := drawNow(rt, 601)
-		m := drawModel(rt, now.Unix(), skew, true)
+		m := drawModel(rt, now.Unix(), skew, true, true)
 		_, hasIAT := m.claims["iat"]
 		v := matchingValidator(rt, m, now, skew, hasIAT && rapid.Bool().Draw(rt, "v_expect_iat"))
 		tv := tinkValidator(rt, v, false)
@@ -39,8 +38,8 @@ func TestTokenMutation(t *testing.T) {
 			rt.Fatalf("sign with %v: %v", k, err)
 		}
 		base := fmt.Sprintf("token mutation; original token %q typ=%s claims=%s", token, pstr(m.typ), jtext(m.claims))
-		if o := decide(rt, base+"\n(unmodified)", p, token, v, tv); !o.d.Accept {
-			rt.Fatalf("%s\nunmodified token rejected by the reference: %s", base, o.d.Reason)
+		if o := decide(rt, base+"\n(unmodified)", p, token, v, tv); !o.d.Accept || !o.strict {
+			rt.Fatalf("%s\nunmodified token not accepted by the reference: %s %v", base, o.d.Reason, o.d.Silent)
 		}
 		parts := strings.Split(token, ".")
 		n, silent, stillValid := 0, 0, 0
@@ -104,6 +103,5 @@ func TestTokenMutation(t *testing.T) {
 		evid.Case(fmt.Sprintf("mutation/%s", k.class()), true, fp, func() any {
 			return map[string]any{"key": k.String(), "token": token, "validator": vdesc(v), "candidates": n, "robustness_only": silent}
 		})
-		_ = jwtref.StageAccepted
 	})
 }
